@@ -55,6 +55,9 @@ pub struct Scenario {
     pub fs_reads: u32,
     pub fs_match: bool,
     pub fs_drop_after: Option<u32>,
+    /// mode 1: corrupting reads performed back to back (no await between them) per round; 0 = 1
+    #[serde(default)]
+    pub fs_burst: u32,
     pub seed: u64,
 }
 
@@ -130,6 +133,7 @@ impl Property for C20 {
                 fs_reads: rng.range(1, 6) as u32,
                 fs_match: rng.chance(3, 4),
                 fs_drop_after: if rng.chance(1, 3) { Some(rng.range(0, 3) as u32) } else { None },
+                fs_burst: rng.range(1, 3) as u32,
                 seed: rng.next_u64(),
             };
         }
@@ -212,7 +216,7 @@ impl Property for C20 {
             schedule.push(st);
         }
         let _ = first_match;
-        Scenario { mode: 0, sources, schedule, fs_reads: 0, fs_match: false, fs_drop_after: None, seed: rng.next_u64() }
+        Scenario { mode: 0, sources, schedule, fs_reads: 0, fs_match: false, fs_drop_after: None, fs_burst: 0, seed: rng.next_u64() }
     }
 
     fn run(sc: &Scenario, keep: bool) -> Report {
@@ -543,25 +547,33 @@ fn run_fs(sc: &Scenario, log: &mut Log, rep: &mut Report) -> Option<Violation> {
     let noop_waker: Waker = Arc::new(Flag(AtomicBool::new(false))).into();
     let mut seen = 0u32;
     let mut expected = 0u32;
-    for k in 0..reads {
+    let burst = sc.fs_burst.max(1);
+    let rounds = reads.div_ceil(burst);
+    for k in 0..rounds {
         if sc.fs_drop_after == Some(k) {
             barrier = None;
             log.ev(format!("drop barrier after {k} reads"));
             rep.faults.inc("barrier_dropped_mid_run");
         }
-        *gate.borrow_mut() = k + 1;
+        // the host performs the reads of one round in one poll, without yielding in between
+        let upto = ((k + 1) * burst).min(reads);
+        let in_round = upto - k * burst;
+        *gate.borrow_mut() = upto;
+        if in_round >= 2 {
+            rep.probes.inc("fs_corrupting_reads_back_to_back_in_one_tick");
+        }
         for _ in 0..4 {
             if let Err(e) = sim.step() {
                 return Some(Violation::new("SimError", format!("fs mode: step failed: {e}")));
             }
         }
-        if done.get() != k + 1 {
-            return Some(Violation::new("ReadBlocked", format!("fs mode: read {k} did not complete (Noop barriers must never block the triggering code)")));
+        if done.get() != upto {
+            return Some(Violation::new("ReadBlocked", format!("fs mode: the reads of round {k} did not complete ({} of {upto} done; Noop barriers must never block the triggering code)", done.get())));
         }
         if barrier.is_some() && matches {
-            expected += 1;
+            expected += in_round;
         }
-        rep.faults.inc("corrupting_read");
+        rep.faults.add("corrupting_read", in_round as u64);
         if let Some(b) = barrier.as_mut() {
             loop {
                 let got = {
@@ -586,7 +598,7 @@ fn run_fs(sc: &Scenario, log: &mut Log, rep: &mut Report) -> Option<Violation> {
         if seen != expected {
             return Some(Violation::new(
                 if seen < expected { "TriggerLost" } else { "UnexpectedTriggerReported" },
-                format!("fs mode: after {} corrupting reads the barrier (condition {}) reported {seen} events, expected {expected}", k + 1, matches),
+                format!("fs mode: after {upto} corrupting reads ({burst} per tick) the barrier (condition {}) reported {seen} events, expected {expected}", matches),
             ));
         }
     }
